@@ -15,7 +15,8 @@ p = '/verif/harness/src/main.rs'
 s = open(p).read()
 if 'vh_%s::dispatch' % g not in s:
     s = re.sub(r"(\|\| vh_\w+::dispatch\(&args, &mut rep\));", r"\1\n        || vh_%s::dispatch(&args, &mut rep);" % g, s, count=1)
-src = open('/verif/harness/crates/%s/src/lib.rs' % g).read() + ''.join(open('/verif/harness/crates/%s/src/%s' % (g, f)).read() for f in __import__('os').listdir('/verif/harness/crates/%s/src' % g))
+import os
+src = ''.join(open(os.path.join(d, f)).read() for d, _, fs in os.walk('/verif/harness/crates/%s/src' % g) for f in fs if f.endswith('.rs'))
 if 'pub fn child' in src and 'vh_%s::child' % g not in s:
     s = s.replace(".or_else(|| vh_codec::child(&name, &rest))", ".or_else(|| vh_codec::child(&name, &rest))\n            .or_else(|| vh_%s::child(&name, &rest))" % g, 1)
 open(p, 'w').write(s)
